@@ -254,13 +254,24 @@ PROPS = {
                         "statement functions.",
              level_note="Trusted: Lean kernel; strings.TrimSpace (Unicode White_Space over UTF-8) is modelled; harness scripted handlers.",
              technique="Lean 4 proof (structural induction on handler programs and statement lists) + differential correspondence"),
-    "C06": P("Pw.Props.C06",
+    "C06": P("Pw.Props.C06Refine",
              ["Pw.Props.C06.C06_skip", "Pw.Props.C06.C06_sync", "Pw.Props.C06.C06_error_one", "Pw.Props.C06.C06_bind_unknown",
               "Pw.Props.C06.C06_execute_unknown", "Pw.Props.C06.C06_parse_reply", "Pw.Props.C06.C06_flush",
-              "Pw.Props.C06.C06_execute_no_ready"],
+              "Pw.Props.C06.C06_execute_no_ready",
+              "Pw.C06_refines", "Pw.C06_history", "Pw.C06_terminate_refines", "Pw.runProg_shape", "Pw.runStatements_shape",
+              "Pw.simpleShape_ok", "Pw.executeShape_plain", "Pw.executeShape_err", "Pw.Rel_init"],
              [("ext", 3000, 250000), ("multi", 400, 12000)], ["Consts", "Session"],
              design_ref="§7 C06",
-             level_text="Lean theorems about the command handlers for EVERY session state and handler: while discarding, every message "
+             level_text="REFINEMENT: Lean theorem C06_refines - every message the command loop of the model handles and survives is a "
+                        "step of the reference machine ExtSpec (Spec/Ext.lean: designated reply per message type, Z only for Sync and "
+                        "at the end of a simple-query cycle, one E then silence until Sync, unknown names are errors, nothing for Flush "
+                        "and stray COPY messages), for every handler set, session state and message, with the abstraction relation "
+                        "(names defined, skipping) re-established; C06_history lifts it to whole histories by induction (the output is "
+                        "the concatenation of one accepted reply group per message, in request order); runProg_shape / "
+                        "runStatements_shape: a statement function adds only DataRow/CommandComplete/CopyInResponse, a simple-query "
+                        "cycle is (T? D* C? G?)* E? Z, for every handler program. The SAME machine is the oracle replayed over the real "
+                        "server's per-message reply groups, so model and implementation are held to one specification. Plus the "
+                        "per-handler theorems: while discarding, every message "
                         "except Sync/Terminate changes nothing at all (no reply, no callback); Sync emits exactly one ReadyForQuery and "
                         "ends discarding; a failing message emits exactly one ErrorResponse, no ReadyForQuery, and starts discarding; Bind "
                         "to an unknown statement and Execute of an unknown portal are such errors; Parse answers ParseComplete or fails; "
